@@ -289,8 +289,7 @@ pub struct TemplateField {
 pub struct OptionsData {
     // Scope Data
     #[nom(
-        PreExec = "let template = parser.options_templates.get(&flowset_id).cloned().unwrap_or_default();",
-        PreExec = "let mut field = template.scope_fields.iter();",
+        PreExec = "let mut field = parser.options_templates.get(&flowset_id).map(|t| t.scope_fields.as_slice()).unwrap_or_default().iter();",
         Parse = "many0(complete( { |i|
                        ScopeDataField::parse(i, field.next().ok_or(
                          NomErr::Error(NomError::new(i, ErrorKind::Fail)
@@ -301,8 +300,7 @@ pub struct OptionsData {
     pub scope_fields: Vec<ScopeDataField>,
     // Options Data Fields
     #[nom(
-        PreExec = "let template = parser.options_templates.get(&flowset_id).cloned().unwrap_or_default();",
-        PreExec = "let mut field = template.option_fields.iter();",
+        PreExec = "let mut field = parser.options_templates.get(&flowset_id).map(|t| t.option_fields.as_slice()).unwrap_or_default().iter();",
         Parse = "many0(complete( { |i|
                         OptionDataField::parse(i, field.next().ok_or(
                             NomErr::Error(NomError::new(i, ErrorKind::Fail))
@@ -389,7 +387,7 @@ impl ScopeDataField {
 pub struct Data {
     // Data Fields
     #[nom(
-        Parse = "{ |i| FieldParser::parse(i, parser.templates.get(&flowset_id).cloned().unwrap_or_default()) }"
+        Parse = "{ |i| FieldParser::parse(i, parser.templates.get(&flowset_id)) }"
     )]
     pub fields: Vec<BTreeMap<usize, V9FieldPair>>,
     #[serde(skip_serializing)]
@@ -480,27 +478,29 @@ impl FieldParser {
     /// # Errors
     ///
     /// The function will return an error if any record fails to be parsed according to the template.
-    fn parse(
-        input: &[u8],
-        template: Template,
-    ) -> IResult<&[u8], Vec<BTreeMap<usize, V9FieldPair>>> {
+    fn parse<'a>(
+        input: &'a [u8],
+        template: Option<&Template>,
+    ) -> IResult<&'a [u8], Vec<BTreeMap<usize, V9FieldPair>>> {
+        let Some(template) = template else {
+            return Ok((input, Vec::new()));
+        };
         let record_count = input
             .len()
             .checked_div(usize::from(template.get_total_size()))
             .unwrap_or(0);
 
-        let (remaining, fields) = (0..record_count).fold(
-            (input, Vec::new()), // Initial accumulator: (fields, remaining)
-            |(remaining, mut fields), _| {
-                let (new_remaining, data_field) =
-                    match Self::parse_data_field(remaining, template.clone()) {
-                        Ok((remaining, data_field)) => (remaining, data_field),
-                        Err(_) => return (remaining, fields),
-                    };
-                fields.push(data_field);
-                (new_remaining, fields)
-            },
-        );
+        let mut remaining = input;
+        let mut fields = Vec::new();
+        for _ in 0..record_count {
+            // A record that cannot be decoded ends the record list; what is left is padding.
+            let Ok((new_remaining, data_field)) = Self::parse_data_field(remaining, template)
+            else {
+                break;
+            };
+            fields.push(data_field);
+            remaining = new_remaining;
+        }
 
         Ok((remaining, fields))
     }
@@ -525,10 +525,10 @@ impl FieldParser {
     /// # Errors
     ///
     /// The function returns an error if parsing any individual field fails according to its type-defined parser.
-    fn parse_data_field(
-        mut input: &[u8],
-        template: Template,
-    ) -> IResult<&[u8], BTreeMap<usize, V9FieldPair>> {
+    fn parse_data_field<'a>(
+        mut input: &'a [u8],
+        template: &Template,
+    ) -> IResult<&'a [u8], BTreeMap<usize, V9FieldPair>> {
         let mut data_field = BTreeMap::new();
 
         for (field_index, template_field) in template.fields.iter().enumerate() {
